@@ -122,7 +122,7 @@ impl<W: WorldDriver> BWorld<W> {
                         break; // entity absent: no borrow, nothing nested runs
                     }
                 },
-                BKind::IterBorrowS | BKind::IterBorrowM => {
+                k if k.is_iter() => {
                     // iteration order is unspecified: take the first visited entity from the
                     // observation when it is a live entity of this archetype
                     let hinted = hints.get(&i).copied().filter(|r| self.live[a].contains_key(r));
@@ -391,7 +391,7 @@ pub fn text_to_nests(text: &str) -> Result<(String, Vec<(u8, Option<u8>)>, Vec<V
             if v.len() % 6 != 0 {
                 return Err("nest line".into());
             }
-            nests.push(v.chunks(6).map(|c| BAccess { kind: BKind::ALL[c[0] as usize % 9], arch: c[1] as usize, col: c[2] as usize, key: if c[4] == 0 { None } else { Some((c[3] as u32, c[4] as u32)) }, write: c[5] }).collect());
+            nests.push(v.chunks(6).map(|c| BAccess { kind: BKind::ALL[c[0] as usize % BKind::ALL.len()], arch: c[1] as usize, col: c[2] as usize, key: if c[4] == 0 { None } else { Some((c[3] as u32, c[4] as u32)) }, write: c[5] }).collect());
         }
     }
     Ok((world, pops, nests))
